@@ -212,7 +212,41 @@ def run_sched_prop(prop, tier, seed, replay):
                    "schedule family: %d schedules of 2-4 tasks over 17 task kinds" % res["cases"]]
     finish(prop, tier, seed, "model_checking", cov, violations, t0, assumptions, hits, write=not replay)
 
+# ------------------------------------------------------------------------------------------------
+import pipe_fault
+def run_fault_prop(prop, tier, seed, replay):
+    t0 = time.time()
+    only = None
+    if replay:
+        only = json.load(open(replay))["scenario"]
+    res = pipe_fault.run_fault(tier, seed, only)
+    kn = [k for k in load_known().get("known", []) if k["property"] == prop]
+    violations, hits = [], []
+    for f in res["fails"]:
+        sig = "%s/%s" % (f["op"], f["kind"])
+        k = next((k for k in kn if k["signature"] == sig), None)
+        if k:
+            if k["what"] not in hits:
+                hits.append(k["what"])
+            continue
+        violations.append({"what": "%s: operation %s, panic injected in the %s call-back number %s (scenario %s)" %
+                           (f["name"], f["op"], f["kind"], f["k"], f.get("i")), "replay": f["replay"]})
+    cov = {
+        "evaluations": res["scenarios"],
+        "distinct_nontrivial": res["scenarios"] - res["nonfiring"],
+        "rule": "one scenario = (operation, call-back kind, position k): every k from 1 to the number of call-backs of that kind the operation makes in a fault-free dry run, for 24 operations (remove first/middle/last row, clear, Entry::add overwrite / shape change, Entry::remove, world drop, clone, clone_from into larger / smaller+extra-table / empty destinations, ==, Debug, serialize x2, deserialize x3, run_system, run_schedule, run_par_system, par_query) on a world with 5 multi-column tables; non-trivial = the injected panic actually fired",
+        "samples": res["samples"] or [{"note": "no sample"}],
+        "callbacks_per_operation": res["ops"],
+        "exhaustive": True,
+        "failing_signatures": sorted({"%s/%s" % (f["op"], f["kind"]) for f in res["fails"]}),
+    }
+    finish(prop, tier, seed, "fault_enumeration", cov, violations, t0,
+           ["one panic per scenario; the quarantining allocator turns double frees and stale reads into data instead of crashes",
+            "leaks after a panic are accepted (PanicSafe demands at-most-once)"], hits, write=not replay)
+
 def run(prop, tier, seed, replay):
+    if prop == "C17":
+        return run_fault_prop(prop, tier, seed, replay)
     if prop in WORLD_NOTES:
         return run_world_prop(prop, tier, seed, replay)
     if prop in SCHED_INV:
